@@ -5,6 +5,9 @@
 #include "STPSolver.h"
 #include "SafeInt.h"
 
+#include <stdexcept>
+#include <string>
+
 #include <models/ModelBuilder.h>
 
 namespace opensmt {
@@ -16,7 +19,14 @@ public:
 template<>
 SafeInt Converter<SafeInt>::getValue(Number const & val) {
     assert(val.isInteger());
-    return SafeInt(static_cast<ptrdiff_t>(val.get_d()));
+    // Exact conversion: going through double loses precision above 2^53 and is undefined beyond the range of
+    // ptrdiff_t. Constants that do not fit are reported the same way as arithmetic overflow in SafeInt.
+    static_assert(sizeof(ptrdiff_t) == sizeof(long long));
+    try {
+        return SafeInt(static_cast<ptrdiff_t>(std::stoll(val.get_str())));
+    } catch (std::out_of_range const &) {
+        throw std::overflow_error("Constant does not fit the integer type of the difference logic solver");
+    }
 }
 
 template<>
